@@ -11,7 +11,9 @@
 (*          set   the type is a set: the value stored under k is k itself  *)
 (*          none  what the type answers for "no such entry", as a tuple:   *)
 (*                <<>> (nil / "" / untyped 0) or <<0>> (the NONE of the    *)
-(*                int-, long- and float-valued maps)                       *)
+(*                int-, long- and float-valued maps); three types let the  *)
+(*                caller change it (SetNullValue)                          *)
+(*          none0 the answer the type was built with (none starts as none0)*)
 (*          rej   the type refuses the empty-string key (Go's stand-in for *)
 (*                Java's null): inserting it is a no-op                    *)
 (*          ek    which key is the empty string (0 = no such key in use)   *)
@@ -101,8 +103,11 @@ FirstKey    == ord[1]
 LastKey     == ord[Len(ord)]
 RemoveFirst == IF Len(ord) > 0 THEN Drop(FirstKey) ELSE UNCHANGED vars
 RemoveLast  == IF Len(ord) > 0 THEN Drop(LastKey) ELSE UNCHANGED vars
-RemoveFirstRet == IF Len(ord) > 0 THEN <<val[FirstKey]>> ELSE cfg.none
-RemoveLastRet  == IF Len(ord) > 0 THEN <<val[LastKey]>> ELSE cfg.none
+\* what the calls that address the first / last entry answer.  On an EMPTY
+\* structure "absent" may come in the configured or in the built-in form: the
+\* property does not say which (LongLongLinkedMap answers a literal 0 there)
+FirstValOK(r) == IF Len(ord) > 0 THEN r = <<val[FirstKey]>> ELSE r \in {cfg.none, cfg.none0}
+LastValOK(r)  == IF Len(ord) > 0 THEN r = <<val[LastKey]>> ELSE r \in {cfg.none, cfg.none0}
 Clear == ord' = <<>> /\ val' = EmptyFn /\ UNCHANGED <<max, cfg>>
 
 \* ---- sorting by a comparator on keys -------------------------------------
@@ -125,6 +130,10 @@ SetMax(n) == /\ n >= 0
              /\ (n = 0 \/ n >= Len(ord))
              /\ max' = n
              /\ UNCHANGED <<ord, val, cfg>>
+
+\* ---- the "no such entry" answer (SetNullValue) ------------------------------
+SetNone(n) == /\ cfg' = [cfg EXCEPT !.none = <<n>>]
+              /\ UNCHANGED <<ord, val, max>>
 
 \* ---- enumerations (read only) ---------------------------------------------
 KeysSeq    == ord
